@@ -555,3 +555,58 @@ Section Loop.
       + exists st'. split; [exact RL|exact REST].
   Qed.
 End Loop.
+
+(* ---- rows as constraints ----------------------------------------------------------------------------------------------- *)
+
+Section Rows2.
+  Variable M : Q.
+  Hypothesis HM : 0 < M.
+  Variable cols : list name.
+
+  Definition cstrs_of_row (r : lrow) : list cstr :=
+    let ts := row_terms cols r in
+    match lr_sense r with
+    | SR => [ {| c_name := Some (lr_name r); c_sense := SG; c_rhs := lr_rhs r;
+                 c_tcx := range_comment M (lr_rhs r) (lr_rhs r + lr_range r); c_terms := ts |};
+              {| c_name := None; c_sense := SL; c_rhs := lr_rhs r + lr_range r; c_tcx := []; c_terms := ts |} ]
+    | s => [ {| c_name := Some (lr_name r); c_sense := s; c_rhs := lr_rhs r; c_tcx := []; c_terms := ts |} ]
+    end.
+
+  Lemma row_lines_cstrs r : row_lines M cols r = flat_map (cstr_lines M) (cstrs_of_row r).
+  Proof.
+    unfold row_lines, cstrs_of_row, cstr_lines, cstr_tc, cstr_hdr.
+    destruct (lr_sense r); cbn [flat_map c_name c_sense c_rhs c_tcx c_terms sense_str app];
+      destruct (expr_layout M (" "%char :: lr_name r ++ s2l ": ") (row_terms cols r)) as [ls c0];
+      try (rewrite !app_nil_r; reflexivity).
+    destruct (expr_layout M (s2l "   ") (row_terms cols r)) as [ls2 c2]. rewrite !app_nil_r.
+    rewrite <- !app_assoc. reflexivity.
+  Qed.
+
+  Definition row_ok (r : lrow) : Prop :=
+    name_ok (lr_name r) /\ terms_ok M (row_terms cols r) /\ row_terms cols r <> [] /\ val_ok M (lr_rhs r) /\
+    (lr_sense r = SR -> val_ok M (lr_rhs r + lr_range r)).
+
+  Lemma cstrs_of_row_ok r : row_ok r -> Forall (cstr_ok M) (cstrs_of_row r).
+  Proof.
+    intros (NO & TO & NE & VO & VR). unfold cstrs_of_row.
+    destruct (lr_sense r) eqn:ES; repeat constructor; cbn; try discriminate; auto.
+    - apply VO.
+    - apply VO.
+    - apply VO.
+    - apply VO.
+    - apply VO.
+    - apply VO.
+    - apply VO.
+    - apply VO.
+    - apply (VR eq_refl).
+    - apply (VR eq_refl).
+  Qed.
+End Rows2.
+
+Definition raw0 (pn : option name) (mx : bool) (on : name) : raw :=
+  {| r_name := pn; r_max := mx; r_cols := [];
+     r_rows := [{| rr_name := Some on; rr_sense := None; rr_rhs := 0; rr_terms := [] |}]; r_bnd := []; r_int := [] |}.
+
+
+Definition obj_terms (cols : list lcol) : list (Q * name) :=
+  flat_map (fun c => if Qeq_bool (lc_obj c) 0 then [] else [(lc_obj c, lc_name c)]) cols.
